@@ -115,6 +115,35 @@ fn lambert_w0(x: f64) -> f64 {
     w
 }
 
+/// Exact comparison of an i64 with an f64 (a cast to f64 would round integers above 2^53).
+fn compare_integer_float(i: i64, f: f64) -> Option<std::cmp::Ordering> {
+    use std::cmp::Ordering;
+    if f.is_nan() {
+        None
+    } else if f >= 9223372036854775808.0 {
+        Some(Ordering::Less)
+    } else if f < -9223372036854775808.0 {
+        Some(Ordering::Greater)
+    } else {
+        let truncated = f.trunc();
+        match i.cmp(&(truncated as i64)) {
+            Ordering::Equal => 0.0_f64.partial_cmp(&(f - truncated)),
+            ordering => Some(ordering),
+        }
+    }
+}
+
+fn compare_numbers(a: &Number, b: &Number) -> Option<std::cmp::Ordering> {
+    match (a, b) {
+        (Number::Integer(x), Number::Integer(y)) => Some(x.cmp(y)),
+        (Number::Float(x), Number::Float(y)) => x.partial_cmp(y),
+        (Number::Integer(x), Number::Float(y)) => compare_integer_float(*x, *y),
+        (Number::Float(x), Number::Integer(y)) => {
+            compare_integer_float(*y, *x).map(std::cmp::Ordering::reverse)
+        }
+    }
+}
+
 pub fn eval(expr: Node) -> Result<Number, Box<dyn error::Error>> {
     #[cfg(feature = "verif_hooks")]
     crate::verif_hooks::tick(2);
@@ -541,15 +570,7 @@ pub fn eval(expr: Node) -> Result<Number, Box<dyn error::Error>> {
                     let r = eval(arg)?;
                     match result {
                         Some(l) => {
-                            let lf64 = match l.clone() {
-                                Number::Float(f) => f,
-                                Number::Integer(i) => i as f64,
-                            };
-                            let rf64 = match r.clone() {
-                                Number::Float(f) => f,
-                                Number::Integer(i) => i as f64,
-                            };
-                            if lf64 < rf64 {
+                            if compare_numbers(&l, &r) == Some(std::cmp::Ordering::Less) {
                                 result = Some(l);
                             } else {
                                 result = Some(r);
@@ -575,15 +596,7 @@ pub fn eval(expr: Node) -> Result<Number, Box<dyn error::Error>> {
                     let r = eval(arg)?;
                     match result {
                         Some(l) => {
-                            let lf64 = match l.clone() {
-                                Number::Float(f) => f,
-                                Number::Integer(i) => i as f64,
-                            };
-                            let rf64 = match r.clone() {
-                                Number::Float(f) => f,
-                                Number::Integer(i) => i as f64,
-                            };
-                            if lf64 > rf64 {
+                            if compare_numbers(&l, &r) == Some(std::cmp::Ordering::Greater) {
                                 result = Some(l);
                             } else {
                                 result = Some(r);
@@ -626,17 +639,7 @@ pub fn eval(expr: Node) -> Result<Number, Box<dyn error::Error>> {
             {
                 return Ok(Number::Float(f64::NAN));
             }
-            results.sort_by(|a, b| {
-                let a = match a {
-                    Number::Integer(x) => (*x) as f64,
-                    Number::Float(x) => *x,
-                };
-                let b = match b {
-                    Number::Integer(x) => (*x) as f64,
-                    Number::Float(x) => *x,
-                };
-                a.partial_cmp(&b).unwrap_or(std::cmp::Ordering::Equal)
-            });
+            results.sort_by(|a, b| compare_numbers(a, b).unwrap_or(std::cmp::Ordering::Equal));
             let len = results.len();
             if len % 2 == 0 {
                 let a = results[len >> 1].clone();
